@@ -313,14 +313,18 @@ func init() {
 		n := int64(args[1].(int))
 		name := strArg(args[0])
 		EX.shardedByChoice = true
-		if EX.cfg.Shards <= 1 {
+		cShard, cShards := EX.cfg.Shard, EX.cfg.Shards
+		if EX.cfg.SubShards > 1 {
+			cShard, cShards = EX.cfg.Shard/EX.cfg.SubShards, EX.cfg.Shards/EX.cfg.SubShards
+		}
+		if cShards <= 1 {
 			return int(intRange(name, 0, n-1))
 		}
 		v := symIntVar(name, types.Int).(symInt)
 		c := tFalse
 		var vals []int64
 		for k := int64(0); k < n; k++ {
-			if int(k)%EX.cfg.Shards == EX.cfg.Shard {
+			if int(k)%cShards == cShard {
 				vals = append(vals, k)
 				if intModeOn() {
 					c = mkOr(c, mkEq(v.t, mkInt(k)))
